@@ -452,14 +452,18 @@ def token_facts(text):
         if toks is not None:
             break
     if toks is None:
-        return {'lastTok': '?', 'commas0': -1, 'struct0': '?'}
+        return {'lastTok': '?', 'commas0': -1, 'struct0': '?', 'trailComment': False}
     depth = 0
     last = ''
     commas = 0
     st = set()
+    tc = False
     for t in toks:
+        if t.type == tokenize.COMMENT:
+            tc = True
         if t.type in TRIVIA:
             continue
+        tc = False
         last = t.string
         if t.type == tokenize.OP and t.string in OPEN:
             depth += 1
@@ -470,4 +474,4 @@ def token_facts(text):
                 commas += 1
             if t.string in (',', 'if', 'for', '->', ':', '=', ';', 'as', 'lambda', 'else'):
                 st.add(t.string)
-    return {'lastTok': last[:8], 'commas0': commas, 'struct0': '|'.join(sorted(st))}
+    return {'lastTok': last[:8], 'commas0': commas, 'struct0': '|'.join(sorted(st)), 'trailComment': tc}
